@@ -287,15 +287,19 @@ class Algebra:
                     continue
             rest += term
         if rest != 0:
-            rest = sp.factor(sp.cancel(sp.together(rest)))
-            c, prim = rest.as_content_primitive()
-            if prim.could_extract_minus_sign():
-                c, prim = -c, -prim
-            prim = sp.cancel(prim)
-            if c.is_Integer:
-                r *= self._gen("E", prim) ** c
-            else:
-                r *= self._gen("E", sp.cancel(prim / c.q)) ** c.p
+            # exp(a + b) = exp(a) exp(b): one generator per additive term of the expanded argument, so that
+            # a product of exponentials and the exponential of the sum have the same normal form
+            rest = sp.expand(self.canon(rest))
+            for term in (rest.as_ordered_terms() if rest.is_Add else [rest]):
+                term = sp.factor(sp.cancel(sp.together(term)))
+                c, prim = term.as_content_primitive()
+                if prim.could_extract_minus_sign():
+                    c, prim = -c, -prim
+                prim = sp.cancel(prim)
+                if c.is_Integer:
+                    r *= self._gen("E", prim) ** c
+                else:
+                    r *= self._gen("E", sp.cancel(prim / c.q)) ** c.p
         return r
 
     # -- calculus / decision --------------------------------------------------------------------
@@ -433,18 +437,28 @@ class Formula:
             if key not in self.opaque_syms:
                 self.opaque_syms[key] = sp.Symbol(f"{name}_{len(self.opaque_syms)}")
             return self.opaque_syms[key]
-        f = self.repo.resolve_method(self.cls, name)
+        return self.call_method_n(name, [arg], depth)
+
+    def call_method_n(self, name, args, depth):
+        """Inline a method of the analysed class with any number of positional arguments (a private
+        helper returning shared constants, a static helper, ...).  The result may be a tuple."""
+        f = self.repo.resolve_method(self.cls, name) if self.cls is not None else None
         if f is None or depth > 4:
             raise Undecided(f"cannot inline {self.cls}.{name}")
-        if len(f.params) != 2:
-            raise Undecided(f"{f.qual} does not take exactly one argument")
-        return self.body(strip_docstring(f.node.body), {f.params[1]: arg}, depth + 1, f)
+        params = list(f.params)
+        is_static = any(norm(d_) == "staticmethod" for d_ in getattr(f.node, "decorator_list", []))
+        if not is_static and params and params[0] in ("self", "cls"):
+            params = params[1:]
+        if len(params) != len(args):
+            raise Undecided(f"{f.qual} called with {len(args)} argument(s)")
+        return self.body(strip_docstring(f.node.body), dict(zip(params, args)), depth + 1, f)
 
     def method(self, name, arg):
         return self.call_method(name, arg, 0)
 
     # -- statements
     def body(self, stmts, env, depth, f):
+        self.module = getattr(f, "module", getattr(self, "module", None))
         r = self.block(stmts, env, depth, f)
         if r is None:
             raise Undecided(f"{f.qual}: no returned formula")
@@ -464,6 +478,22 @@ class Formula:
                 vals = [self.ev(v, env, depth) for v in s.value.elts]   # right-hand side first (simultaneous binding)
                 for t, v in zip(s.targets[0].elts, vals):
                     env[t.id] = v
+            elif isinstance(s, ast.Assign) and len(s.targets) == 1 and isinstance(s.targets[0], ast.Tuple) and \
+                    all(isinstance(t, ast.Name) for t in s.targets[0].elts):
+                v = self.ev(s.value, env, depth)
+                if not isinstance(v, tuple) or len(v) != len(s.targets[0].elts):
+                    raise Undecided(f"{f.qual}: cannot unpack `{norm(s.value)[:40]}`")
+                for t, x_ in zip(s.targets[0].elts, v):
+                    env[t.id] = x_
+            elif isinstance(s, ast.For) and isinstance(s.target, ast.Name) and not s.orelse:
+                seq = self.ev(s.iter, env, depth)
+                if not isinstance(seq, tuple):
+                    raise Undecided(f"{f.qual}: loop over `{norm(s.iter)[:40]}`")
+                for item in seq:      # a loop over a literal tuple of coefficients is unrolled
+                    env[s.target.id] = item
+                    r = self.block(s.body, env, depth, f)
+                    if r is not None:
+                        return r
             elif isinstance(s, ast.AugAssign) and isinstance(s.target, ast.Name):
                 a, b = env.get(s.target.id), self.ev(s.value, env, depth)
                 if a is None:
@@ -561,6 +591,22 @@ class Formula:
             if norm(e) in ("np.pi", "math.pi"):
                 return self.alg.param("pi")
             raise Undecided(f"attribute {norm(e)[:40]}")
+        if isinstance(e, (ast.Tuple, ast.List)):
+            return tuple(self.ev(x, env, depth) for x in e.elts)
+        if isinstance(e, ast.Subscript):
+            base = self.ev(e.value, env, depth)
+            if isinstance(base, tuple):
+                def cint(n_):
+                    if n_ is None:
+                        return None
+                    v_ = self.ev(n_, env, depth)
+                    if not getattr(v_, "is_Integer", False):
+                        raise Undecided(f"index `{norm(n_)}`")
+                    return int(v_)
+                if isinstance(e.slice, ast.Slice):
+                    return base[cint(e.slice.lower):cint(e.slice.upper):cint(e.slice.step)]
+                return base[cint(e.slice)]
+            raise Undecided(f"subscript `{norm(e)[:40]}`")
         if isinstance(e, ast.BinOp):
             return self.binop(e.op, self.ev(e.left, env, depth), self.ev(e.right, env, depth))
         if isinstance(e, ast.UnaryOp) and isinstance(e.op, (ast.USub, ast.UAdd)):
@@ -599,6 +645,19 @@ class Formula:
             if isinstance(e.func, ast.Attribute) and isinstance(e.func.value, ast.Name) and e.func.value.id == "self" \
                     and len(e.args) == 1 and not e.keywords:
                 return self.call_method(e.func.attr, self.ev(e.args[0], env, depth), depth)
+            if isinstance(e.func, ast.Attribute) and isinstance(e.func.value, ast.Name) and \
+                    e.func.value.id in ("self", "cls", self.cls) and not e.keywords and e.func.attr not in self.opaque:
+                return self.call_method_n(e.func.attr, [self.ev(a_, env, depth) for a_ in e.args], depth)
+            if isinstance(e.func, ast.Name) and e.func.id not in env and getattr(self, "module", None) and depth < 5:
+                g = next((x for x in self.repo.funcs.values() if x.module == self.module and x.cls is None
+                          and x.name == e.func.id and isinstance(x.node, ast.FunctionDef)), None)
+                if g is not None and not e.keywords and len(e.args) == len(g.params):
+                    sub_env = {p_: self.ev(a_, env, depth) for p_, a_ in zip(g.params, e.args)}
+                    saved = self.module
+                    try:
+                        return self.body(strip_docstring(g.node.body), sub_env, depth + 1, g)
+                    finally:
+                        self.module = saved
             if isinstance(e.func, ast.Name) and e.func.id in env and len(e.args) == 1 and \
                     isinstance(env[e.func.id], tuple) and env[e.func.id][0] == "bound":
                 return self.call_method(env[e.func.id][1], self.ev(e.args[0], env, depth), depth)
